@@ -17,10 +17,11 @@ Definition is_comment_start (c : N) : bool := (c =? cHASH) || (c =? cSEMI).
 Definition is_blank (c : N) : bool := (c =? cSP) || (c =? cTAB).
 
 (* char::is_alphanumeric: exact on ASCII; beyond ASCII only the Latin letters U+00C0..U+02AF (minus the two
-   operators) are recognised -- an approximation recorded in DESIGN.md (keys in the theorems are ASCII) *)
+   operators) and the Cyrillic letters U+0400..U+0481, U+048A..U+052F are recognised -- an approximation recorded in DESIGN.md (keys in the theorems are ASCII) *)
 Definition is_alnum (c : N) : bool :=
   ((48 <=? c) && (c <=? 57)) || ((65 <=? c) && (c <=? 90)) || ((97 <=? c) && (c <=? 122)) ||
-  ((192 <=? c) && (c <=? 687) && negb (c =? 215) && negb (c =? 247)) || (c =? 170) || (c =? 181) || (c =? 186).
+  ((192 <=? c) && (c <=? 687) && negb (c =? 215) && negb (c =? 247)) || (c =? 170) || (c =? 181) || (c =? 186) ||
+  ((1024 <=? c) && (c <=? 1153)) || ((1162 <=? c) && (c <=? 1327)).
 Definition is_key_char (c : N) : bool := is_alnum c || (c =? cDASH).
 Definition key_stop (c : N) : bool := (c =? cEQ) || (c =? cSP) || (c =? cTAB) || (c =? cNL) || (c =? cCR).
 
